@@ -17,7 +17,7 @@ import Deepali.Model.TransformState
 namespace Deepali.Drv
 open Deepali Deepali.Proto Deepali.TState
 
-def tsCls : Reader Cls := do
+private def tsCls : Reader Cls := do
   let t ← tok
   match t with
   | "dvf1" => pure (.dvf true)
@@ -30,7 +30,7 @@ def tsCls : Reader Cls := do
   | "multi" => pure .multi
   | _ => throw s!"bad-op:cls:{t}"
 
-def tsKind : Reader Kind := do
+private def tsKind : Reader Kind := do
   let t ← tok
   match t.splitOn ":" with
   | ["none"] => pure .none
@@ -44,7 +44,7 @@ def tsKind : Reader Kind := do
     | none => throw s!"bad-op:kind:{t}"
   | _ => throw s!"bad-op:kind:{t}"
 
-def tsOp : Reader Op := do
+private def tsOp : Reader Op := do
   let t ← tok
   match t with
   | "mk" => do
@@ -76,7 +76,7 @@ def tsOp : Reader Op := do
   | "clear" => do pure (.clear (← nat))
   | _ => throw s!"bad-op:tstate-op:{t}"
 
-partial def tsOps (acc : Array Op) : Reader (List Op) := do
+private partial def tsOps (acc : Array Op) : Reader (List Op) := do
   match (← get) with
   | [] => pure acc.toList
   | ";" :: _ => pure acc.toList
@@ -84,11 +84,11 @@ partial def tsOps (acc : Array Op) : Reader (List Op) := do
     let op ← tsOp
     tsOps (acc.push op)
 
-def fmtContent : Content → String
+private def fmtContent : Content → String
   | .lit v => s!"L{v}"
   | .pred f c => s!"P{f}.{c}"
 
-def fmtObs (o : Obs) : String :=
+private def fmtObs (o : Obs) : String :=
   s!"{fmtContent o.params},g{o.grid},i{if o.inverted then 1 else 0}"
 
 private def fmtErr : Err → String
@@ -96,19 +96,19 @@ private def fmtErr : Err → String
   | .notimpl => "err:notimpl" | .readonly => "err:readonly" | .noobj => "err:noobj"
   | .inplace => "err:inplace"
 
-def fmtOut : Out → String
+private def fmtOut : Out → String
   | .ok => "ok"
   | .new id => s!"new:{id}"
   | .obs l => "obs:" ++ "+".intercalate (l.map fmtObs)
   | .val c => s!"val:{fmtContent c}"
   | .err e => fmtErr e
 
-def tstateRun : Reader String := do
+private def tstateRun : Reader String := do
   let ops ← tsOps #[]
   let (_, outs) := runOuts World.empty ops
   pure (" ".intercalate (outs.map fmtOut))
 
-def tstateCurrent : Reader String := do
+private def tstateCurrent : Reader String := do
   let ops ← tsOps #[]
   let _ ← tok
   let o ← nat
